@@ -95,6 +95,15 @@ def run(ck):
             if N:   # companion run on the alias low part of a + r (for the hybrid template)
                 a = pairs[3][0]; z = a + R
                 add(f"{op}{P}_c", ["w " + hx(z % (1 << N)), "w " + hx(pairs[3][1]), f"{op} {P} $0 $1", "snap"], (op, P, z % (1 << N), pairs[3][1]))
+    # both operands the SAME witness: the right accumulator column must still be bound to the input
+    aliased = {}
+    for P in ([1, 3, 8, 127] if quick else [1, 2, 3, 5, 8, 16, 64, 127]):
+        for op in ("land", "lxor"):
+            x = rng.scalar()
+            nm = f"{op}{P}_al"
+            lines.append("prog " + nm); body = ["w " + hx(x), f"{op} {P} $0 $0", "snap"]; lines.extend(body)
+            progs[nm] = body; aliased[nm] = (op, P, x)
+            ck.count((op, P, x, "aliased"), kind=op + ", aliased operands")
     impl, model = composer.run_both(ck, "\n".join(lines) + "\n", "c10")
     ck.sample({"program": progs["lxor4_1"]}); ck.sample({"program": progs["land127_0"]})
     bad = composer.compare_programs(ck, progs, impl, model, "C10")
@@ -139,6 +148,26 @@ def run(ck):
                     nm = name + "_alias"
                     jobs.append((nm, snap, w2)); expect[nm] = False; info[nm] = ("alias a+r", op, P)
                     ck.count(("alias", op, P), kind="template: accumulators of a+r")
+    for nm, (op, P, x) in aliased.items():
+        if nm not in impl: continue
+        snap = Snapshot(impl[nm]); N = 2 * P
+        f = (lambda u, v: u ^ v) if op == "lxor" else (lambda u, v: u & v)
+        res_w = [int(r_[0]) for r_ in snap.results if r_ and r_[0].isdigit()]
+        out = res_w[-1]
+        if snap.wits[out] != f(x % (1 << N), x % (1 << N)):
+            ck.violation(f"{op}::<{P}>(x, x) with one witness for both operands returned {snap.wits[out]:#x}", {"failing_input_found": True, "program": progs[nm]}, key=f"value-aliased:{op}")
+        jobs.append((nm, snap, None)); expect[nm] = True; info[nm] = ("honest, aliased operands", op, P)
+        # prover-chosen right accumulator column (the quads of another value y), products and outputs consistent with it
+        y = (x % (1 << N)) ^ (1 + rng.randrange((1 << N) - 1)) if N else 0
+        base = FIRST + 1
+        w2 = list(snap.wits); aa = bb = dd = 0
+        if len(w2) < base + 4 * P: continue
+        for j in range(P):
+            qa, qb = (x >> (2 * (P - 1 - j))) & 3, (y >> (2 * (P - 1 - j))) & 3
+            aa, bb, dd = 4 * aa + qa, 4 * bb + qb, 4 * dd + f(qa, qb)
+            w2[base + 4 * j], w2[base + 4 * j + 1], w2[base + 4 * j + 2], w2[base + 4 * j + 3] = aa, bb, qa * qb, dd
+        jobs.append((nm + "_y", snap, w2)); expect[nm + "_y"] = False; info[nm + "_y"] = ("aliased operands: right accumulator column of another value", op, P)
+        ck.count(("aliased-forged", op, P), kind="template: aliased operands, foreign right column")
     # two residuals of one logic row that cancel: satisfiable only if the widget gives them the same weight
     lm = cancelling_logic_cases(rng, quick)
     lm_lines = []
@@ -167,7 +196,7 @@ def run(ck):
                          {"failing_input_found": True, "program": progs.get(base_name), "template": tag, "pairs": P}, key=f"{tag}:{op}:{P}")
     base_of = lambda n: n.split("_")[0] + "_" + n.split("_")[1]
     for nm, over in composer.second_opinion(ck, jobs, expect, progs, base_of, "c10_rp",
-                                            lambda n: n.endswith(("_3", "_2", "_o", "_alias")) and n.count("_") == 2, limit=8 if quick else 40, pp_log=10):
+                                            lambda n: (n.endswith(("_3", "_2", "_o", "_alias")) and n.count("_") == 2) or n.endswith("_al_y"), limit=8 if quick else 40, pp_log=10):
         tag, op, P = info[nm]
         ck.violation(f"{tag}: {op} pairs={P}: the REAL prover produced a proof for this assignment and the verifier accepted it",
                      {"failing_input_found": True, "program": progs[base_of(nm)], "witness_overrides": {str(i): hx(v) for i, v in over.items()}, "template": tag}, key=f"accepted:{tag}:{op}")
